@@ -430,6 +430,9 @@ func (e *c09env) one(b []byte, cs *c09case, fileLen int) {
 		site := e.allocSite(b)
 		r.Violation("C09:alloc@"+site, cs, fmt.Sprintf("%s %s at %d = %#x (table %s): %d bytes allocated for a %d byte file (budget %d)", cs.File, cs.Kind, cs.Off, cs.Val, cs.Tab, after-before, fileLen, budget))
 	}
+	if cs.Kind != "none" && e.outcome != e.baseOutcome && r.WantSample() {
+		r.Sample(map[string]any{"fault": cs, "bytes_allocated": after - before, "observable_result_changed": true, "loaded_faces_and_queries_signature": e.outcome % 1000003})
+	}
 	r.Max("max_bytes_allocated_in_one_case", int64(after-before))
 	r.Outcome(e.outcome%1000003, e.outcome > 1000)
 }
